@@ -114,8 +114,12 @@ def gl2(prog, getfn):
     out.append(inst("GL", "%s:GL2:ctor" % newf.npath, VIOLATION if e else OK, newf, None, e or "Element{key,val,hash} in order"))
     stores = [s for s in te.stores if s[1][0] == "call" and s[1][1].name == "index_mut"]
     errs = []
+    partial = [s_ for s_ in te.stores if "index_mut" in show(s_[1]) and s_ not in stores]
+    if partial:
+        errs.append("a slot is updated in place (%s := …): key, value and hash are no longer written together, so a "
+                    "stored key can be paired with another key's value" % show(partial[0][1])[:70])
     if len(stores) != 1:
-        errs.append("expected exactly one slot write, found %d" % len(stores))
+        errs.append("expected exactly one whole-slot write, found %d" % len(stores))
     else:
         bb, pt, val, line = stores[0]
         v = strip(val)
